@@ -288,20 +288,6 @@ func (fd *Client) DeleteItem(input *dynamodb.DeleteItemInput) (*dynamodb.DeleteI
 		return nil, err
 	}
 
-	// support conditional writes
-	if input.ConditionExpression != nil {
-		items, _ := table.SearchData(core.QueryInput{
-			Index:                     core.PrimaryIndexName,
-			ExpressionAttributeValues: mapAttributeValueToTypes(input.ExpressionAttributeValues),
-			Aliases:                   aws.StringValueMap(input.ExpressionAttributeNames),
-			Limit:                     1,
-			ConditionExpression:       input.ConditionExpression,
-		})
-		if len(items) == 0 {
-			return &dynamodb.DeleteItemOutput{}, awserr.New(dynamodb.ErrCodeConditionalCheckFailedException, core.ErrConditionalRequestFailed.Error(), nil)
-		}
-	}
-
 	item, err := table.Delete(mapDeleteItemInputToTypes(input))
 	if err != nil {
 		return nil, err
